@@ -17,12 +17,15 @@ class KeyCalc(object):
         if callable(key_spec):
             return key_spec
         formatters = None
+        literals = None
         if isinstance(key_spec, str):
-            formatters = FIELDS_RE.findall(key_spec)
+            # The text between the fields is part of the key as well
+            parts = FIELDS_RE.split(key_spec)
+            formatters, literals = parts[1::2], parts[0::2]
             key_spec = [KEY_RE.findall(fmt[1:])[0] for fmt in formatters]
         if isinstance(key_spec, (list, tuple)):
             def func(row):
-                ret = ''
+                ret = literals[0] if literals else ''
                 for i, key in enumerate(key_spec):
                     value = row[key]
                     # numbers
@@ -40,7 +43,7 @@ class KeyCalc(object):
                             bits.invert(range(1, 64))
                         value = bits.hex
                     if formatters:
-                        ret += formatters[i].format(**{key: value})
+                        ret += formatters[i].format(**{key: value}) + literals[i + 1]
                     else:
                         ret += str(value)
                 return ret
